@@ -324,3 +324,43 @@ MUTANTS += [
     dict(prop="C09", name="mask-drops-interval-at-genome-end", file=IV,
          old="    postfix = [size] if (len(ends) == 0 or ends[-1] != size) else []", new="    postfix = [size] if (len(ends) == 0 or ends[-1] < size - 1) else []"),
 ]
+
+GO = "bionumpy/genomic_data/global_offset.py"
+GI = "bionumpy/genomic_data/genomic_intervals.py"
+GC = "bionumpy/genomic_data/genome_context.py"
+GS = "bionumpy/genomic_data/genomic_sequence.py"
+GEO = "bionumpy/genomic_data/geometry.py"
+
+MUTANTS += [
+    # ---- C10 ----------------------------------------------------------------------------
+    dict(prop="C10", name="offsets-without-leading-zero", file=GO,
+         old="        self._offset = np.insert(np.cumsum(self._sizes), 0, 0)", new="        self._offset = np.cumsum(self._sizes)"),
+    dict(prop="C10", name="to-local-searchsorted-side", file=GO,
+         old="    def to_local_coordinates(self, global_offset) -> Tuple[EncodedArray, np.ndarray]:\n        chromosome_idxs = np.searchsorted(self._offset, global_offset, side=\"right\") - 1",
+         new="    def to_local_coordinates(self, global_offset) -> Tuple[EncodedArray, np.ndarray]:\n        chromosome_idxs = np.maximum(np.searchsorted(self._offset, global_offset, side=\"left\") - 1, 0)"),
+    dict(prop="C10", name="position-equal-to-size-accepted", file=GO,
+         old="        mask = local_offset >= self.get_size(sequence_name)", new="        mask = local_offset > self.get_size(sequence_name)"),
+    dict(prop="C10", name="windows-not-clipped", file=GI,
+         old="        return GenomicIntervalsFull(intervals, self._genome_context,\n                                    is_stranded=self.is_stranded()).clip()",
+         new="        return GenomicIntervalsFull(intervals, self._genome_context,\n                                    is_stranded=self.is_stranded())"),
+    dict(prop="C10", name="clip-uses-genome-size", file=GI,
+         old="        chrom_sizes = self._genome_context.global_offset.get_size(self._intervals.chromosome)\n        return replace(self,",
+         new="        chrom_sizes = self._genome_context.size\n        return replace(self,"),
+    dict(prop="C10", name="track-strand-reversal-dropped", file=GT,
+         old="        r = rle[:, ::-1]\n        return np.where((intervals.strand.ravel() == '+')[:, np.newaxis],\n                        rle, r)",
+         new="        r = rle[:, ::-1]\n        return np.where((intervals.strand.ravel() != '.')[:, np.newaxis],\n                        rle, r)"),
+    dict(prop="C10", name="sorted-ignores-stop", file=GI,
+         old="        args = np.lexsort([self.stop, self.start, self.chromosome.raw()])", new="        args = np.lexsort([self.start, self.chromosome.raw()])"),
+    dict(prop="C10", name="merged-on-concatenated-genome", file=GI,
+         old="        merged = [merge_intervals(intervals[codes == code], distance) for code in np.unique(codes)]\n        if not merged:\n            return self\n        return self.__class__(np.concatenate(merged), self._genome_context, self._is_stranded)",
+         new="        go = self._genome_context.global_offset\n        if len(intervals) == 0:\n            return self\n        g = merge_intervals(go.from_local_interval(intervals), distance)\n        return self.__class__(go.to_local_interval(g), self._genome_context, self._is_stranded)"),
+    dict(prop="C10", name="center-rounds-up", file=GI,
+         old="            location = (self.start + self.stop) // 2", new="            location = (self.start + self.stop + 1) // 2"),
+    dict(prop="C10", name="ignored-chromosomes-kept", file=GC,
+         old="        mask = self.is_included(encoded_chromosomes)\n        if np.all(mask):\n            return data\n        return data[mask]",
+         new="        mask = self.is_included(encoded_chromosomes)\n        if np.all(mask) or mask.sum() < 2:\n            return data\n        return data[mask]"),
+    dict(prop="C10", name="minus-strand-sequence-only-reversed", file=GS,
+         old="                parts = [get_reverse_complement(sequences[~is_forward])]", new="                parts = [sequences[~is_forward][:, ::-1]]"),
+    dict(prop="C10", name="fasta-index-in-file-order (seeded C10-a)", file="bionumpy/io/indexed_fasta.py",
+         old="        indices: FastaIdx = index_table[chromosome_i]", new="        indices: FastaIdx = self._index_table[chromosome_i]"),
+]
